@@ -56,14 +56,21 @@ def op_bit(c, o):
         return ["int", int(len(p.unpack()))]
     if op == "bit_get":
         i = int(c[3])
-        v = p[i] if not o.get("npidx") else p[np.int64(i)]
+        idt = o.get("idxdt", "i8")                 # narrow index dtypes only where the position fits
+        if idt != "i8" and not (0 <= i <= np.iinfo(DT2NP[idt]).max):
+            idt = "i8"
+        v = p[i] if not o.get("npidx") else p[DT2NP[idt](i)]
         return ["digit", int_to_dig(v, b)]
     if op == "bit_getlist":
         l = [int(x) for x in c[3]]
-        q = p[l] if o.get("listkind", "list") == "list" else p[np.array(l, dtype=int)]
+        idt = o.get("idxdt", "i8")
+        if idt != "i8" and not all(0 <= x <= np.iinfo(DT2NP[idt]).max for x in l):
+            idt = "i8"
+        q = p[l] if o.get("listkind", "list") == "list" else p[np.array(l, dtype=DT2NP[idt])]
         return ["digits", [int_to_dig(x, b) for x in np.asarray(q.unpack()).tolist()]]
     if op == "bit_window":
-        w = p.sliding_window(int(c[3]))
+        npw = o.get("npw")                         # the window size as a numpy integer instead of a python int
+        w = p.sliding_window(int(c[3]) if not npw else DT2NP[npw](int(c[3])))
         out = ["windows", [digits_of_word(x, b) for x in np.asarray(w).tolist()]]
         if o.get("again"):                         # the same object must answer the same question the same way again
             w2 = p.sliding_window(int(c[3]))
@@ -154,6 +161,19 @@ def py_sel(sel):
     raise ValueError(sel)
 
 
+def narrow(t, dt):
+    """the same table with its columns stored in a narrower integer dtype (only if every value fits)"""
+    cols = shallow_cols(t)
+    info = np.iinfo(DT2NP[dt])
+    if not all(c.size == 0 or (c.min() >= info.min and c.max() <= info.max) for c in cols):
+        return t
+    return type(t)(*[c.astype(DT2NP[dt]) for c in cols])
+
+
+def shallow_cols(t):
+    return [np.asarray(getattr(t, f.name)) for f in dataclasses.fields(t)]
+
+
 def op_dc(c, o):
     op = c[0]
     _INHERIT[0] = bool(o.get("inherit"))
@@ -163,7 +183,12 @@ def op_dc(c, o):
         return ["int", len(mk_table(c[1]))]
     if op == "dc_getitem":
         t = mk_table(c[1])
-        r = t[py_sel(c[2])]
+        sel = py_sel(c[2])
+        if c[2][0] == "mask" and o.get("listmask"):
+            sel = [bool(v) for v in c[2][1]]           # the mask as a plain list of bools
+        if c[2][0] == "int" and o.get("npint"):
+            sel = np.int64(sel)
+        r = t[sel]
         if c[2][0] == "int":
             names, vals = proj_entry(r)
             return ["entry", names, vals]
@@ -175,6 +200,8 @@ def op_dc(c, o):
     if op == "dc_concat":
         ws = widths_of(c[1])
         ts = [mk_table(t, ws) for t in c[1]]
+        if o.get("firstdt") and ts:                # parts of different integer widths: numpy promotes, values are kept
+            ts[0] = narrow(ts[0], o["firstdt"])
         return proj_table(np.concatenate(ts))
     if op == "dc_eq":
         ws = widths_of([c[1], c[2]])
